@@ -56,6 +56,9 @@ var rejections = []rejection{
 	{"calendar_dates.txt", "bad-date", map[string]string{"date": "yesterday"}, 1},
 	{"calendar_dates.txt", "blank-date", map[string]string{"date": ""}, 1},
 	{"calendar_dates.txt", "blank-exception_type", map[string]string{"exception_type": ""}, 1},
+	// (the date of the rejected row lies far outside every service's range: 20301231)
+	{"calendar_dates.txt", "bad-exception_type", map[string]string{"exception_type": "x"}, 1},
+	{"calendar_dates.txt", "bad-exception_type-of-a-new-service", map[string]string{"service_id": "ZZNEWSERVICE", "exception_type": "2x"}, 1},
 	{"shapes.txt", "blank-shape_id", map[string]string{"shape_id": ""}, 1},
 	{"shapes.txt", "bad-shape_pt_lat", map[string]string{"shape_pt_lat": "north"}, 1},
 	{"shapes.txt", "blank-shape_pt_lat", map[string]string{"shape_pt_lat": ""}, 1},
